@@ -9,6 +9,7 @@ import (
 	"encoding/json"
 	"io"
 	"net/http"
+	"sync"
 	"time"
 
 	"github.com/bluele/gcache"
@@ -18,16 +19,18 @@ import (
 
 func vStubs() map[string]interface{} {
 	return map[string]interface{}{
-		"fmt.Errorf":                             stubFmtErrorf,
-		"encoding/json.NewEncoder":               stubNewEncoder,
-		"(*encoding/json.Encoder).Encode":        stubEncode,
-		"(*encoding/json.Encoder).SetIndent":     stubSetIndent,
-		"encoding/json.NewDecoder":               stubNewDecoder,
-		"(*encoding/json.Decoder).Decode":        stubDecode,
-		"io.ReadAll":                             stubReadAll,
-		"(*github.com/bluele/gcache.LRUCache).Set":          stubCacheSet,
-		"(*github.com/bluele/gcache.LRUCache).GetIFPresent": stubCacheGetIFPresent,
-		"(*github.com/bluele/gcache.LRUCache).Remove":       stubCacheRemove,
+		"fmt.Errorf":                                                        stubFmtErrorf,
+		"encoding/json.NewEncoder":                                          stubNewEncoder,
+		"(*encoding/json.Encoder).Encode":                                   stubEncode,
+		"(*encoding/json.Encoder).SetIndent":                                stubSetIndent,
+		"encoding/json.NewDecoder":                                          stubNewDecoder,
+		"(*encoding/json.Decoder).Decode":                                   stubDecode,
+		"io.ReadAll":                                                        stubReadAll,
+		"compress/gzip.NewReader":                                           stubGzipNewReader,
+		"(*github.com/bluele/gcache.LRUCache).Set":                          stubCacheSet,
+		"(*github.com/bluele/gcache.LRUCache).GetIFPresent":                 stubCacheGetIFPresent,
+		"(*github.com/bluele/gcache.LRUCache).Remove":                       stubCacheRemove,
+		"github.com/fullstorydev/emulators/storage/gcsemu.parseByteRange":   stubParseByteRangeMaybe,
 		"github.com/fullstorydev/emulators/storage/gcsutil.EncodePageToken": stubEncodePageToken,
 		"github.com/fullstorydev/emulators/storage/gcsutil.DecodePageToken": stubDecodePageToken,
 	}
@@ -52,9 +55,12 @@ func stubFmtErrorf(format string, a ...interface{}) error {
 
 var vEncW map[*json.Encoder]io.Writer
 var vDecR map[*json.Decoder]io.Reader
+var vJSONMu sync.Mutex // the handle tables are harness state
 
 func stubNewEncoder(w io.Writer) *json.Encoder {
 	e := new(json.Encoder)
+	vJSONMu.Lock()
+	defer vJSONMu.Unlock()
 	if vEncW == nil {
 		vEncW = map[*json.Encoder]io.Writer{}
 	}
@@ -63,7 +69,10 @@ func stubNewEncoder(w io.Writer) *json.Encoder {
 }
 func stubSetIndent(e *json.Encoder, prefix, indent string) {}
 func stubEncode(e *json.Encoder, v interface{}) error {
-	if rec, ok := vEncW[e].(*vRecorder); ok {
+	vJSONMu.Lock()
+	w := vEncW[e]
+	vJSONMu.Unlock()
+	if rec, ok := w.(*vRecorder); ok {
 		rec.bodies = append(rec.bodies, v)
 		if rec.code == 0 {
 			rec.code = http.StatusOK
@@ -73,6 +82,8 @@ func stubEncode(e *json.Encoder, v interface{}) error {
 }
 func stubNewDecoder(r io.Reader) *json.Decoder {
 	d := new(json.Decoder)
+	vJSONMu.Lock()
+	defer vJSONMu.Unlock()
 	if vDecR == nil {
 		vDecR = map[*json.Decoder]io.Reader{}
 	}
@@ -85,7 +96,10 @@ type vBadJSON struct{}
 func (vBadJSON) Error() string { return "invalid character" }
 
 func stubDecode(d *json.Decoder, v interface{}) error {
-	b, ok := vDecR[d].(*vBody)
+	vJSONMu.Lock()
+	rd := vDecR[d]
+	vJSONMu.Unlock()
+	b, ok := rd.(*vBody)
 	if !ok || b.decode == nil {
 		return vBadJSON{}
 	}
@@ -120,8 +134,11 @@ func stubDecodePageToken(tok string) (string, error) {
 // ---- upload-id cache: a map ----
 
 var vCache map[interface{}]interface{}
+var vCacheMu sync.Mutex // gcache is safe for concurrent use
 
 func stubCacheSet(c *gcache.LRUCache, key, value interface{}) error {
+	vCacheMu.Lock()
+	defer vCacheMu.Unlock()
 	if vCache == nil {
 		vCache = map[interface{}]interface{}{}
 	}
@@ -129,12 +146,16 @@ func stubCacheSet(c *gcache.LRUCache, key, value interface{}) error {
 	return nil
 }
 func stubCacheGetIFPresent(c *gcache.LRUCache, key interface{}) (interface{}, error) {
+	vCacheMu.Lock()
+	defer vCacheMu.Unlock()
 	if v, ok := vCache[key]; ok {
 		return v, nil
 	}
 	return nil, nil
 }
 func stubCacheRemove(c *gcache.LRUCache, key interface{}) bool {
+	vCacheMu.Lock()
+	defer vCacheMu.Unlock()
 	_, ok := vCache[key]
 	delete(vCache, key)
 	return ok
